@@ -15,6 +15,7 @@
 package main
 
 import (
+	"crypto/sha256"
 	"bytes"
 	"context"
 	"encoding/base64"
@@ -34,6 +35,8 @@ import (
 	"github.com/matrix-org/gomatrixserverlib/fclient"
 	"github.com/matrix-org/gomatrixserverlib/spec"
 
+	"github.com/tidwall/sjson"
+	"verif/mc/authgen"
 	"verif/mc/evgen"
 	"verif/mc/fedgen"
 	"verif/mc/harness"
@@ -749,6 +752,7 @@ func run(r *harness.Run) {
 	if r.Replaying() {
 		return
 	}
+	wideDuplicates(r)
 	t0 := time.Now()
 	if f := os.Getenv("C18_PPROF"); f != "" {
 		fh, _ := os.Create(f)
@@ -939,4 +943,76 @@ func protoTemplates(r *harness.Run) {
 		}
 	}
 	r.Count("make_join_templates_built", int64(n))
+}
+
+
+// wideDuplicates: an identifier member sent twice (a valid copy and one that only passes the cheap checks) on events of 13 to
+// 33 top-level members, the two copies at EVERY pair of positions, in both orders, with the content hash a sender computes
+// from the receiver's own canonical form. Readers that take the first copy in canonical order and readers that take the last
+// copy in input order must not end up validating one and using the other (sorting routines change algorithm with the width).
+func wideDuplicates(r *harness.Run) {
+	type field struct{ name, good, bad string }
+	n := 0
+	for _, v := range []string{"1", "4", "10", "12"} {
+		env := newEnv(v)
+		room := authgen.RoomOf(v)
+		fields := []field{{"room_id", `"` + room + `"`, `"!bad:"`}, {"sender", `"` + alice + `"`, `"@:"`}, {"type", `"m.x"`, `""`}}
+		for _, width := range r.PickInts([]int{13, 14, 20}, []int{12, 13, 14, 16, 20, 33, 64}) {
+			for _, f := range fields {
+				others := []string{`"auth_events":[]`, `"content":{}`, `"depth":1`, `"origin":"a.org"`, `"origin_server_ts":1`, `"prev_events":[]`, `"signatures":{}`, `"state_key":""`}
+				for _, g := range fields {
+					if g.name != f.name {
+						others = append(others, `"`+g.name+`":`+g.good)
+					}
+				}
+				for k := 0; len(others)+3 < width; k++ {
+					others = append(others, fmt.Sprintf(`"zz_pad%02d":0`, k))
+				}
+				total := len(others) + 2
+				for i := 0; i < total; i++ {
+					for j := i + 1; j < total; j++ {
+						for _, goodFirst := range []bool{true, false} {
+							first, second := f.good, f.bad
+							if !goodFirst {
+								first, second = second, first
+							}
+							var ms []string
+							o := 0
+							for pos := 0; pos < total; pos++ {
+								switch pos {
+								case i:
+									ms = append(ms, `"`+f.name+`":`+first)
+								case j:
+									ms = append(ms, `"`+f.name+`":`+second)
+								default:
+									ms = append(ms, others[o])
+									o++
+								}
+							}
+							body := strings.Join(ms, ",")
+							var js []byte
+							if p, _ := harness.Try(func() {
+								hashable := gmsl.CanonicalJSONAssumeValid([]byte(`{"hashes":{"sha256":""},` + body + `}`))
+								for _, key := range []string{"signatures", "unsigned", "hashes"} {
+									hashable, _ = sjson.DeleteBytes(hashable, key)
+								}
+								sum := sha256.Sum256(hashable)
+								js = []byte(`{"hashes":{"sha256":"` + base64.RawStdEncoding.EncodeToString(sum[:]) + `"},` + body + `}`)
+							}); p || js == nil {
+								continue
+							}
+							n++
+							r.Eval()
+							text := js
+							rp := &reporter{r: r, in: func() caseInput {
+								return caseInput{v, "wide-duplicate", []sub{{Path: f.name, Val: f.bad, Dup: 1}}, true, base64.StdEncoding.EncodeToString(text)}
+							}}
+							env.driveText(rp, js, 1)
+						}
+					}
+				}
+			}
+		}
+	}
+	r.Count("wide_duplicate_events", int64(n))
 }
